@@ -848,9 +848,8 @@ class Manager:
                 if parent:
                     resumed = True
                     value = parent.throw(value.extract())
-                    if value is not None:
-                        value_generator = (val for val in (value,))
-                        self.registerTask((event, value_generator, parent))
+                    value_generator = (val for val in (value,))
+                    self.registerTask((event, value_generator, parent))
                 else:
                     raise value.extract()
             elif isinstance(value, Sleep):
